@@ -85,8 +85,8 @@ def run(tier, seed):
         chk.sample([json.loads(next(f)) for _ in range(1)][0])
     chk.cov["traces_validated_against_impl"] = frames
     chk.cov["pixels_compared"] = frames * 49152
-    chk.cov["rule"] = (f"{shards} shards x {1 if quick else 3} rounds x 20 delivery paths (CPU writes via 0x4000 and via 0xC000 with bank 5 / bank 7 paged, "
-                       "paging locked followed by a write that would switch screens, LDIR, tape fast-load (48K to 0x4000; 128K through 0xC000 into bank 5 and into the displayed shadow bank 7), 48K/128K SNA, stored/compressed/shuffled SZX, SCR, pokes; 48K, 128K, shadow screen) with random and structured "
+    chk.cov["rule"] = (f"{shards} shards x {1 if quick else 3} rounds x 21 delivery paths (CPU writes via 0x4000 and via 0xC000 with bank 5 / bank 7 paged, "
+                       "paging locked followed by a write that would switch screens, an SNA snapshot taken with the stack inside the display file, LDIR, tape fast-load (48K to 0x4000; 128K through 0xC000 into bank 5 and into the displayed shadow bank 7), 48K/128K SNA, stored/compressed/shuffled SZX, SCR, pokes; 48K, 128K, shadow screen) with random and structured "
                        "screens; >= 2 judged frames per path, one path per round over 70 frames (every frame judged, at 64 sampled pixels between the full canvases: the FLASH rhythm); per path ~100 writes (poke / CPU / bus) that the "
                        "memory map keeps out of the visible display file (beyond it, other banks, the other screen bank, addresses sharing low address "
                        "bits with display bytes) followed by judged frames; and single-byte writes at beam time +-40 T")
